@@ -65,8 +65,8 @@ def main():
                     results["mutants"][m["id"]] = {"error": err}; continue
                 r = {"prop": m["prop"], "needs": m["needs"]}
                 if suite:
-                    rc, o = sh("cargo nextest run --workspace --no-fail-fast --offline --test-threads 8 2>&1 | tail -3", cwd=WT, env=dict(os.environ, CARGO_TARGET_DIR="/tmp/vmon-mut/suite-target"))
-                    r["baseline_suite"] = o.strip().splitlines()[-1] if o.strip() else "?"
+                    rc, o = sh("timeout -k 5 240 cargo nextest run --workspace --no-fail-fast --offline --test-threads 8 2>&1 | tail -3 | cut -c1-150", cwd=WT, env=dict(os.environ, CARGO_TARGET_DIR="/tmp/vmon-mut/suite-target"))
+                    r["baseline_suite"] = (o.strip().splitlines()[-1] if o.strip() else "?") if "Summary" in o else "suite did not finish within 240 s (hang) or failed to build: " + o.strip()[-120:]
                 t0 = time.time()
                 rc, sig, o = run_check(m["prop"])
                 r.update({"check_exit": rc, "signature": sig, "wall_s": round(time.time() - t0, 1)})
